@@ -39,7 +39,7 @@ Alt(name, clause, channel, perm, msgs) == [name |-> name, clause |-> clause, cha
 \* A shape: one root type of one plugin run.  run names the (d, cfg) pair (shapes of the same run share the
 \* generated package); group / role / gchecks tie runs together for relational clauses evaluated by the
 \* trace validator (same key => same value within a group); pair ties behaviours together line by line.
-NoPair == [key |-> "", role |-> "", clause |-> "", prop |-> "", maskattrs |-> <<>>, maskfields |-> <<>>]
+NoPair == [key |-> "", role |-> "", clause |-> "", prop |-> "", exclkey |-> ""]
 Shape(id, d, cfg) == [id |-> id, d |-> d, cfg |-> cfg, root |-> "Root", run |-> id,
                       group |-> "", role |-> "", gchecks |-> <<>>, pair |-> NoPair]
 GCheck(kind, prop, clause) == [k |-> kind, p |-> prop, c |-> clause]
@@ -112,7 +112,10 @@ EmbedShapes == <<
   WithLeaf2("e.ptr.list", Embed(MsgF("Leaf", 1, "Leaf"))),
   Shape("e.val.in.val", Desc(<<Msg("Inner", <<Fld("Num", 1, "int32")>>, <<>>),
         Msg("Outer", <<Fld("Str", 1, "string"), NonNull(Embed(MsgF("Inner", 2, "Inner")))>>, <<>>),
-        Msg("Root", <<NonNull(Embed(MsgF("Outer", 1, "Outer"))), Fld("Flag", 2, "bool")>>, <<>>)>>), BaseCfg) >>
+        Msg("Root", <<NonNull(Embed(MsgF("Outer", 1, "Outer"))), Fld("Flag", 2, "bool")>>, <<>>)>>), BaseCfg),
+  \* a message embedded into a message that is used twice below the root
+  Shape("e.below", Desc(<<Leaf, Msg("Outer", <<NonNull(Embed(MsgF("Leaf", 1, "Leaf"))), Fld("Num", 2, "int32")>>, <<>>),
+        Msg("Root", <<MsgF("Sub", 1, "Outer"), MsgF("Sub2", 2, "Outer")>>, <<>>)>>), BaseCfg) >>
 
 EmptyShapes == <<
   WithEmpty("z.ptr", MsgF("Nothing", 1, "Empty")),
